@@ -65,6 +65,14 @@ def run(ctx):
     v, n = oracles(r['cases'])
     res['violations'] = v[:3] + res['violations']
     res['oracle_checks'] = n
+    # one column cache over a cache-free pipeline: generating a shard runs every function once per id (hash pass and value pass together)
+    from props import colonce
+    res = colonce.add(ctx, res, 'C03')
+    # a decorated function runs once per call, whatever the number of its outputs (containers/base.py function_to_bag)
+    from props import c10
+    r10 = c10.run(dict(ctx, pid=ctx['pid'] + 'lb'))
+    res['violations'] += [x for x in r10.get('violations', []) if x['signature'] in ('oracle:loopback-double-evaluation', 'harness-error')][:2]
+    res['oracle_checks'] += r10.get('oracle_checks', 0)
     from props import relcorr, hashdigest
     res = relcorr.memo_oracle(ctx, res, 'C03')
     return hashdigest.add(ctx, res, 'C03')
